@@ -79,7 +79,9 @@ package node
 
 //@ func (c *core) commit(block *hg.Block) error
 //@   requires c != nil && c.hg != nil && c.validator != nil && c.validator.Key != nil && block != nil && block.Signatures != nil && c.selfBlockSignatures != nil && c.selfBlockSignatures.Items() != nil
+//@   requires c.validators != nil && c.validators.WF() && c.peers != nil && c.peers.WF() && c.promises != nil && len(c.validators.Peers) < 1000000000 && len(c.peers.Peers) < 1000000000
 //@   callback proxyCommitCallback modifies nothing
+//@   call processAcceptedInternalTransactions assume[receipts-bounded] len(commitResponse.InternalTransactionReceipts) < 1000000000
 //@   call signBlock assert[sign-after-commit] __called("proxyCommitCallback") && __lastret("proxyCommitCallback", 1) == nil && __eq(block.Body.StateHash, commitResponse.StateHash) && __eq(block.Body.InternalTransactionReceipts, commitResponse.InternalTransactionReceipts)
 //@   ensures[stored]    ret0 == nil && __called("proxyCommitCallback") && __lastret("proxyCommitCallback", 1) == nil ==> __eq(hg.G_bodies(c.hg.Store)[block.Body.Index], block.Body)
 //@   ensures[state]     __called("proxyCommitCallback") && __lastret("proxyCommitCallback", 1) == nil ==> __eq(block.Body.StateHash, commitResponse.StateHash) && __eq(block.Body.InternalTransactionReceipts, commitResponse.InternalTransactionReceipts)
